@@ -1,7 +1,7 @@
 """C17 — a response cut off at any byte yields an error (DESIGN.md section 7, C17).
 Transport half: protocol.ReadResponse on every prefix of well-formed frames (this file +
 checks/schema_common.py).  Conn half: checks/c11.py's conn_cut_cases (legacy Conn)."""
-import json, collections, importlib
+import json, collections, importlib, time
 import checklib as L
 from checks import schema_common as S
 
@@ -74,9 +74,29 @@ def correspondence(ctx):
                samples=[c["line"][:160] + " | " + c["go"][:40] + " | " + c["feats"] for c in cases[:3] + cases[len(cases)//2:len(cases)//2+2]],
                failures=failures, extra=dict(transport_outcome_classes=dict(classes), child_restarts=restarts,
                                              exhaustive=bool(ctx.thorough)))
+    # On a tree where a cut really is mishandled (a spinning reader, a leaked lock) every hosted family
+    # below runs into its watchdogs; once a violation WITH a failing input is established and 150 s have
+    # passed, the remaining families are skipped (noted) — on a tree where the property holds nothing is
+    # ever skipped, because there is no failure.
+    t_start = time.time()
+    skipped = []
+
+    class _Skipped:
+        def __getattr__(self, name):
+            def f(ctx):
+                skipped.append(name)
+                return dict(evaluations=0, distinct_nontrivial=0, failures=[], hist={}, samples=[], notes=[])
+            return f
+
+    def imp(name):
+        established = any(f.get("layer") == "property" and f.get("input") for f in out["failures"])
+        if established and time.time() - t_start > 150:
+            return _Skipped()
+        return importlib.import_module(name)
+
     # Conn half
     try:
-        c11 = importlib.import_module("checks.c11")
+        c11 = imp("checks.c11")
         conn = c11.conn_cut_cases(ctx)
         out["evaluations"] += conn.get("evaluations", 0)
         out["distinct_nontrivial"] += conn.get("distinct_nontrivial", 0)
@@ -90,7 +110,7 @@ def correspondence(ctx):
         out.setdefault("notes", []).append("checks/c11.py has no conn_cut_cases yet")
     # Conn half, compressed batches: every cut position of a compressed v2 payload (checks/c02.py compressed_cut_cases)
     try:
-        cc = importlib.import_module("checks.c02").compressed_cut_cases(ctx)
+        cc = imp("checks.c02").compressed_cut_cases(ctx)
         out["evaluations"] += cc.get("evaluations", 0)
         out["distinct_nontrivial"] += cc.get("distinct_nontrivial", 0)
         out["failures"] += cc.get("failures", [])
@@ -100,7 +120,7 @@ def correspondence(ctx):
         out.setdefault("notes", []).append("checks/c02.py has no compressed_cut_cases yet")
     # Transport half through kafka.Transport itself (pool behaviour after a cut response): checks/c06.py
     try:
-        c06 = importlib.import_module("checks.c06")
+        c06 = imp("checks.c06")
         tc = c06.transport_cut_cases(ctx)
         out["evaluations"] += tc.get("evaluations", 0)
         out["distinct_nontrivial"] += tc.get("distinct_nontrivial", 0)
@@ -121,7 +141,7 @@ def correspondence(ctx):
     # raw (SaslHandshake v0) SASL authentication response cut at every byte position, Conn and
     # Transport paths (checks/c18.py raw_sasl_cut_cases)
     try:
-        sc = importlib.import_module("checks.c18").raw_sasl_cut_cases(ctx)
+        sc = imp("checks.c18").raw_sasl_cut_cases(ctx)
         out["evaluations"] += sc.get("evaluations", 0)
         out["distinct_nontrivial"] += sc.get("distinct_nontrivial", 0)
         out["failures"] += sc.get("failures", [])
@@ -134,7 +154,7 @@ def correspondence(ctx):
     # the Reader on a new connection after a cut fetch response: no record lost, duplicated or
     # reordered (checks/c02.py reader_cut_cases, real kafka.Reader, cut in every region of the frame)
     try:
-        rc = importlib.import_module("checks.c02").reader_cut_cases(ctx)
+        rc = imp("checks.c02").reader_cut_cases(ctx)
         out["evaluations"] += rc.get("evaluations", 0)
         out["distinct_nontrivial"] += rc.get("distinct_nontrivial", 0)
         out["failures"] += rc.get("failures", [])
@@ -147,7 +167,7 @@ def correspondence(ctx):
     # the Writer on a new connection after a cut produce response: C01's retry rule with the cut
     # as a lost acknowledgement, every retry carrying the same records (checks/writer_common.py)
     try:
-        wc = importlib.import_module("checks.writer_common").writer_cut_cases(ctx)
+        wc = imp("checks.writer_common").writer_cut_cases(ctx)
         out["evaluations"] += wc.get("evaluations", 0)
         out["distinct_nontrivial"] += wc.get("distinct_nontrivial", 0)
         out["failures"] += wc.get("failures", [])
@@ -159,7 +179,7 @@ def correspondence(ctx):
     # Client.ListOffsets / OffsetFetch through the real Transport with sub-responses cut at every
     # byte: a cut partition carries an error, never placeholder offsets (checks/c19.py listoffsets_cut_cases)
     try:
-        lc = importlib.import_module("checks.c19").listoffsets_cut_cases(ctx)
+        lc = imp("checks.c19").listoffsets_cut_cases(ctx)
         out["evaluations"] += lc.get("evaluations", 0)
         out["distinct_nontrivial"] += lc.get("distinct_nontrivial", 0)
         out["failures"] += lc.get("failures", [])
@@ -168,6 +188,8 @@ def correspondence(ctx):
         out["samples"] += lc.get("samples", [])[:2]
     except (ModuleNotFoundError, AttributeError):
         out.setdefault("notes", []).append("checks/c19.py has no listoffsets_cut_cases yet")
+    if skipped:
+        out.setdefault("notes", []).append("violation with a failing input established and 150 s used: hosted families skipped: " + ", ".join(skipped))
     return out
 
 
